@@ -1609,6 +1609,11 @@ impl CanonicalizeContext {
 			if following_siblings.is_empty() {
 				return None;
 			}
+			let parent = get_parent(leaf);
+			let parent_name = name(&parent);
+			if ELEMENTS_WITH_FIXED_NUMBER_OF_CHILDREN.contains(parent_name) || parent_name == "mmultiscripts" {
+				return None;		// the siblings are positional arguments (numerator/denominator, base/script), not a row
+			}
 
 			let following_sibling = as_element(following_siblings[0]);
 			if name(&following_sibling) != "mo" || as_text(following_sibling) != "|" {
